@@ -15,6 +15,8 @@ def run(ctx):
         aiff.run(ctx, found=bool(ctx.violations))
         from .. import small2       # HTK / WVE / MPC2K / PVF / MAT4 / MAT5 / XI container models (lean/SfModel/Small2.lean + one file each)
         small2.run(ctx, found=bool(ctx.violations))
+        from .. import shortprobe    # guess_file_type on files shorter than its probe (Sf.Small2.guessProbe, `sfmodel probe`)
+        shortprobe.run(ctx, found=bool(ctx.violations))
         from .. import small1        # AVR / IRCAM / PAF / SVX / VOC / NIST container models (lean/SfModel/SmallSession.lean + one file each)
         small1.run(ctx, found=bool(ctx.violations))
         from .. import small3        # NIST / VOC / XI / MAT5 / SDS container models (lean/SfModel/Nist.lean, ...; driver `sfmodel small3`)
